@@ -94,12 +94,16 @@ func VerifH_v4_alloc() {
 	if len(post) != len(pre) {
 		return
 	}
-	vnd.Assert(vnd.HeldLocks() == 0, "C16 v4 allocator lock released")
+	vnd.AssertEngine(vnd.HeldLocks() == 0, "C16 v4 allocator lock released")
+	if vnd.Symbolic() {
+		vnd.AssertEngine(vnd.Acquisitions(&a.l) <= 1, "C16 one allocator call is one critical section")
+	}
 	if err != nil {
 		vnd.Cover("full")
 		vnd.Assert(err == allocators.ErrNoAddrAvail, "C05 v4 failure reports no address available")
 		vnd.Assert(hallSet(pre, n), "C05 v4 fails only when every block is outstanding")
 		vnd.Assert(hsameExcept(post, pre, 0, false, true), "C05 v4 failure changes nothing")
+		vnd.Assert(hsameExcept(post, pre, 0, false, true), "C04 v4 a failed allocation leaves every outstanding block outstanding")
 		return
 	}
 	vnd.Cover("allocated")
@@ -144,7 +148,10 @@ func VerifH_v4_free() {
 	if len(post) != len(pre) {
 		return
 	}
-	vnd.Assert(vnd.HeldLocks() == 0, "C16 v4 allocator lock released")
+	vnd.AssertEngine(vnd.HeldLocks() == 0, "C16 v4 allocator lock released")
+	if vnd.Symbolic() {
+		vnd.AssertEngine(vnd.Acquisitions(&a.l) <= 1, "C16 one allocator call is one critical section")
+	}
 	end := start + uint32(n) - 1
 	inRange := vnd.And(named, vnd.And(av >= start, av <= end))
 	i := uint64(av - start)
